@@ -32,8 +32,10 @@ def Scratch.set {α : Type} (s : Scratch α) (k : Nat) (v : α) : Option (Scratc
 
 /-! ### The world outside a run -/
 
-/-- One user-function invocation as recorded by the harness. -/
+/-- One user-function invocation as recorded by the harness; `node` (the node on whose behalf the function ran) is
+ghost information for the at-most-once theorem, never compared with the implementation. -/
 structure CallRec where
+  node : Nat
   f : String
   pos : List Val
   kwn : List String
@@ -123,7 +125,7 @@ def World.doOp (w : World) : StoreOp → Option Val × World
 /-- `func(*pos, **kw)` for an uninterpreted user function called on behalf of node `n`. -/
 def World.call (w : World) (n : Nat) (f : String) (pos : List Val) (kwn : List String) (kwv : List Val) :
     Except Err Val × World :=
-  let w' := { w with serial := w.serial + 1, log := ⟨f, pos, kwn, kwv⟩ :: w.log }
+  let w' := { w with serial := w.serial + 1, log := ⟨n, f, pos, kwn, kwv⟩ :: w.log }
   if w.failAt.contains w.serial then (.error (.user f), w')
   else if let some (_, v) := w.constFns.find? (·.1 == f) then (.ok v, w')
   else if w.impureFns.contains f then (.ok (.imp f w.callNo n pos kwn kwv), w')
